@@ -142,7 +142,8 @@ func c13One(c *Ctx, spec connSpec, stream []byte, tag string, limit int) error {
 	o := specReceive(spec.Server, conn.VerifPD().Enabled, limit, spec.Utf8, takeover, bits, stream)
 	replay := map[string]any{"spec": fmt.Sprintf("%+v", spec), "stream_hex_prefix": fmt.Sprintf("%x", head(stream, 64)), "stream_len": len(stream), "tag": tag,
 		"observed_kind": obs.Kind, "observed_status": obs.A, "events": len(obs.Events), "alloc": obs.PeakAlloc}
-	if why, sig := judgeInbound(o, obs); why != "" {
+	why, sig, skip := judgeStream(o, obs)
+	if why != "" {
 		c.oracleFail(why+" ["+tag+"]", sig, replay)
 	}
 	for _, e := range obs.Events {
@@ -153,7 +154,9 @@ func c13One(c *Ctx, spec connSpec, stream []byte, tag string, limit int) error {
 	if obs.PeakAlloc > allocBudget(limit, len(stream)) {
 		c.oracleFail(fmt.Sprintf("allocated %d bytes while reading with limit %d [%s]", obs.PeakAlloc, limit, tag), "over-allocation", replay)
 	}
-	inboundCase(c, spec, conn, stream, o, obs, tag)
+	if !skip {
+		inboundCase(c, spec, conn, stream, o, obs, tag)
+	}
 	c.count(tag, true, fmt.Sprintf("limit=%d", limit), "end="+o.Kind, fmt.Sprintf("delivered=%d", len(obs.Events)))
 	if len(c.Sum.Samples) < 4 && len(obs.Events) > 0 {
 		c.sample(replay)
